@@ -7,3 +7,4 @@ void registerAll();
 void reg_range();
 void reg_parser();
 void reg_sock();
+void reg_srv();
